@@ -19,6 +19,7 @@ import (
 	"github.com/ontio/ontology/common"
 	"github.com/ontio/ontology/consensus/vbft"
 	vconfig "github.com/ontio/ontology/consensus/vbft/config"
+	"github.com/ontio/ontology/core/signature"
 	"verifharness/lib/bftkit"
 	"verifharness/lib/vf"
 )
@@ -341,6 +342,28 @@ func (g *game) byzAct() {
 				es[e] = s
 			}
 		}
+		if g.rng.Chance(35) {
+			// name further peers as endorsers with signatures they made over ANOTHER block of this round
+			// (or with junk): well-formed, the committer's own signature is valid
+			for _, other := range g.props {
+				if other.hash == h {
+					continue
+				}
+				for e, sg := range g.sigs[other.hash] {
+					if _, have := es[e]; !have && g.rng.Chance(60) {
+						es[e] = sg
+						g.stats["byz_commit_names_endorser_with_sig_over_other_block"]++
+					}
+				}
+			}
+			if g.rng.Chance(20) {
+				for _, hn := range g.honest {
+					if _, have := es[hn]; !have {
+						es[hn] = g.rng.Bytes(65)
+					}
+				}
+			}
+		}
 		wire, err := vbft.VerifSimCommitWire(acc, b, p.proposer, g.blk, h, forEmpty, nil, es)
 		if err != nil {
 			panic(err)
@@ -422,6 +445,70 @@ func (g *game) fireTimer() bool {
 	return false
 }
 
+// burst: several inputs reach one node back to back (an expiring timer and messages), and the node's
+// message loop and action/timer loops then run CONCURRENTLY, as they do in the running server.
+func (g *game) burst() bool {
+	un := g.unsealed()
+	if len(un) == 0 {
+		return false
+	}
+	// prefer a node that has an armed timer and a message in flight
+	h := un[g.rng.Intn(len(un))]
+	for _, c := range un {
+		if len(g.nodes[c].ArmedTimers()) == 0 {
+			continue
+		}
+		for _, f := range g.pool {
+			if f.to == c && f.typ == vbft.BlockProposalMessage {
+				h = c
+			}
+		}
+	}
+	n := g.nodes[h]
+	did := 0
+	order := g.rng.Perm(2)
+	for _, what := range order {
+		switch what {
+		case 0:
+			if armed := n.ArmedTimers(); len(armed) > 0 {
+				e := armed[g.rng.Intn(len(armed))]
+				g.tr("burst: timer %d expires at node %d", e, h)
+				if err := n.Fire(e); err != nil {
+					g.tr("  handler: %v", err)
+				}
+				did++
+			}
+		case 1:
+			k := 0
+			for i := 0; i < len(g.pool) && k < 3; i++ {
+				f := g.pool[i]
+				if f.to != h || (f.cross && !g.rng.Chance(10)) {
+					continue
+				}
+				g.pool = append(g.pool[:i], g.pool[i+1:]...)
+				i--
+				ok, why := n.Deliver(f.from, f.wire)
+				g.tr("burst: deliver %d -> %d: %s%s", f.from, f.to, f.about, map[bool]string{true: "", false: " [dropped: " + why + "]"}[ok])
+				if ok {
+					if info, err := vbft.VerifSimDecode(f.wire); err == nil {
+						g.heard[f.to] = append(g.heard[f.to], stmtsOf(info)...)
+					}
+				}
+				k++
+				did++
+			}
+		}
+	}
+	if did == 0 {
+		return false
+	}
+	n.PumpConcurrent()
+	g.stats["concurrent_bursts"]++
+	g.collect(h)
+	g.noteSeal(h)
+	return true
+}
+
 func (g *game) run(maxSteps int) {
 	vbftProposers := ""
 	for _, h := range g.honest {
@@ -448,6 +535,8 @@ func (g *game) run(maxSteps int) {
 			progressed = true
 		case c < byzPct+12:
 			progressed = g.fireTimer()
+		case c < byzPct+22:
+			progressed = g.burst()
 		default:
 			progressed = g.deliver()
 			if !progressed {
@@ -528,6 +617,44 @@ func (g *game) classify(na uint32, sa vbft.VerifSimSeal, nb uint32, sb vbft.Veri
 		return "sealed-with-fewer-than-2C+1-distinct-signers", detail
 	}
 	if len(ha) < quorum || len(hb) < quorum {
+		// which of the counted peers vouched for ANOTHER block (or empty block) of the same proposer, and
+		// which are counted with a signature that verifies for no block of that proposer at all?
+		for _, s := range []vbft.VerifSimSeal{sa, sb} {
+			valid := map[uint32]bool{s.Proposer: true}
+			var bogus []uint32
+			for peer, evs := range s.Evidence {
+				if peer == s.Proposer {
+					continue
+				}
+				ok := false
+				acc := g.accts[peer]
+				for _, ev := range evs {
+					for _, p := range g.props {
+						if p.proposer != s.Proposer || acc == nil {
+							continue
+						}
+						for _, h := range []common.Uint256{p.hash, p.empty} {
+							if ev.CommitHash != nil && *ev.CommitHash != h {
+								continue
+							}
+							if signature.Verify(acc.PublicKey, h[:], ev.Sig) == nil {
+								ok = true
+							}
+						}
+					}
+				}
+				if ok {
+					valid[peer] = true
+				} else {
+					bogus = append(bogus, peer)
+				}
+			}
+			if len(valid) < quorum {
+				sort.Slice(bogus, func(i, j int) bool { return bogus[i] < bogus[j] })
+				return "signatures-that-verify-for-no-block-of-the-proposer-were-counted",
+					detail + fmt.Sprintf("; for the seal of p%d only %v hold a signature over one of its blocks, %v are counted with signatures that verify for none", s.Proposer, keys(valid), bogus)
+			}
+		}
 		return "statements-about-another-block-of-the-same-proposer-were-counted", detail
 	}
 	// both seals rest on 2C+1 signers of the very block: the quorums intersect in an honest node
@@ -635,6 +762,8 @@ func runSim(r *vf.Run, rng *vf.RNG) {
 	r.Require("sim/byz_commits", 100)
 	r.Require("sim/byz_endorsements", 100)
 	r.Require("sim/deliveries", int64(games*10))
+	r.Require("sim/concurrent_bursts", int64(games))
+	r.Require("sim/byz_commit_names_endorser_with_sig_over_other_block", 50)
 	if r.Counter("sim/games_aborted_by_panic")*20 > int64(games) {
 		r.Inconclusive("more than 5% of the simulated games were aborted by a panic inside the hollow server")
 	}
